@@ -37,3 +37,18 @@ package lifecycle
 
 //verif:func (*Service).recoverPipeline(s, ctx, rp) (err)
 //verif:call[recovering-status-first] (*Service).StartWithBackoff requires arg2 == rp
+
+// C06: stop-and-wait returns nil only after stop, drain and persistence each
+// completed, in that order (each phase bounded by the deadline).
+//verif:func (*Service).StopAndWait(s, ctx, pipelineID) (err)
+//verif:call[drain-and-persist-after-stop] waitBounded requires succeeded("(*Service).Stop") && (count("waitBounded") == 1 ==> succeeded("waitBounded"))
+//verif:ensures[nil-means-all-three] err == nil ==> succeeded("(*Service).Stop") && count("waitBounded") == 2 && succeeded("waitBounded")
+
+//verif:closure of (*Service).StopAndWait calling (*Service).WaitPipeline (s, pipelineID) (err)
+//verif:call[waits-for-this-pipeline] (*Service).WaitPipeline requires arg1 == deref(pipelineID)
+
+//verif:closure of (*Service).StopAndWait calling ConnectorService.WaitPersisted (s) (err)
+//verif:ensures[always-nil] err == nil && called("ConnectorService.WaitPersisted")
+
+//verif:func (*Service).stopAndWaitTimeoutErr(s, pipelineID, phase, cause) (err)
+//verif:ensures[always-an-error] err != nil
